@@ -147,3 +147,34 @@ package aggregation
 //@ func (*StatisticalAnalysis).Mode
 //@   pure
 //@   loop 1 invariant 0 <= i
+
+// ---- MatchNumerical: running moments against the ghost sample history (floats as reals) ----
+// ghost history of one aggregator: nm_vals[0..nm_n) are the samples in arrival order,
+// nm_sum / nm_sumsq their sum and sum of squares
+//@ ghost nm_n(rare/pkg/aggregation.MatchNumerical) int
+//@ ghost nm_vals(rare/pkg/aggregation.MatchNumerical) reals
+//@ ghost nm_sum(rare/pkg/aggregation.MatchNumerical) real
+//@ ghost nm_sumsq(rare/pkg/aggregation.MatchNumerical) real
+//@ pred wf_num(s) := s.config != nil && s.samples == nm_n(s) && nm_n(s) >= 0
+//@      && real(nm_n(s)) * s.mean == nm_sum(s)
+//@      && (forall i in [0, nm_n(s)) :: s.min <= nm_vals(s)[i] && nm_vals(s)[i] <= s.max)
+//@      && (nm_n(s) > 0 ==> (exists i in [0, nm_n(s)) :: nm_vals(s)[i] == s.min) && (exists j in [0, nm_n(s)) :: nm_vals(s)[j] == s.max))
+//@      && (nm_n(s) == 0 ==> s.mean == 0.0)
+//@      && (nm_n(s) == 0 ==> s.min == 179769313486231570814527423731704356798070567525844996598917476803157260780028538760589558632766878171540458953514382464234321326889464182768467546703537516986049910576551282076245490090389328944075868508455133942304583236903222948165808559332123348274797826204144723168738177180919299881250404026184124858368.0 && s.max == 0.0 - s.min)
+//@      && (s.config.KeepValuesForAnalysis ==> len(s.values) == nm_n(s) && (forall i in [0, nm_n(s)) :: s.values[i] == nm_vals(s)[i]))
+//@ pred f64(x) := 0.0 - 179769313486231570814527423731704356798070567525844996598917476803157260780028538760589558632766878171540458953514382464234321326889464182768467546703537516986049910576551282076245490090389328944075868508455133942304583236903222948165808559332123348274797826204144723168738177180919299881250404026184124858368.0 <= x && x <= 179769313486231570814527423731704356798070567525844996598917476803157260780028538760589558632766878171540458953514382464234321326889464182768467546703537516986049910576551282076245490090389328944075868508455133942304583236903222948165808559332123348274797826204144723168738177180919299881250404026184124858368.0
+
+//@ func (*MatchNumerical).Samplef
+//@   requires wf_num(s) && f64(val) && s.samples < 4611686018427387904
+//@   ghostset nm_vals(s) := store(old(nm_vals(s)), old(nm_n(s)), val)
+//@   ghostset nm_n(s) := old(nm_n(s)) + 1
+//@   ghostset nm_sum(s) := old(nm_sum(s)) + val
+//@   ghostset nm_sumsq(s) := old(nm_sumsq(s)) + val * val
+//@   ensures wf_num(s) && s.parseErrors == old(s.parseErrors)
+
+// mean = S1/n (the second moment identity n*M2 == n*S2 - S1^2 is nonlinear real arithmetic that the
+// solvers do not discharge inside the heap context: it is checked by the bounded oracle only)
+//@ func (*MatchNumerical).Mean
+//@   requires wf_num(s)
+//@   pure
+//@   ensures real(nm_n(s)) * result == nm_sum(s)
